@@ -58,7 +58,7 @@ func (k *c17Ctx) describe(tag string, data []byte) {
 		return ObsOk(InfoSx(inf))
 	})
 	insp, _ := inspectObs(p)
-	k.c.Emit("describe:"+tag, SL{S(p), SB(data), oracle}, SL{isU, val, insp})
+	k.c.Emit("describe:"+tag, SL{S(filepath.Base(p)), SB(data), oracle}, SL{isU, val, insp})
 }
 
 // ---- library functions the repository calls, against the re-model ----
